@@ -442,4 +442,10 @@ def rule_scans(ctx):
                   detail=[[short(callee_path(t) or "") for _, t in c.calls()] for c in clos])
 
 
-RULES = [rule_tables, rule_scans, rule_before_any_byte]
+def rule_effective_lookup_premise(ctx):
+    """the table's inputs are lookups in the effective headers (caller-added + original): R02.6 consumers, shared"""
+    from .rules_c02 import rule_header_order
+    rule_header_order(ctx)
+
+
+RULES = [rule_tables, rule_scans, rule_before_any_byte, rule_effective_lookup_premise]
